@@ -131,6 +131,10 @@ type c08Scn struct {
 	LongIdle bool `json:"long_idle,omitempty"`
 	// OnlyLong restricts schedule deviations to "L".
 	OnlyLong bool `json:"only_long,omitempty"`
+	// FirstFaultPending: the first fault may only happen while one of Bob's links holds an
+	// update of its own that no signature covers yet (a forwarded Add that has just left
+	// the mailbox): the window in which a connection loss leaves the Add in the mailbox.
+	FirstFaultPending bool `json:"first_fault_pending,omitempty"`
 }
 
 func c08In(list []string, v string) bool {
@@ -1351,6 +1355,12 @@ func (w *c08World) Enabled() []string {
 			if len(w.scn.FaultSeq) > 0 && (w.faultsUsed >= len(w.scn.FaultSeq) || w.scn.FaultSeq[w.faultsUsed] != f) {
 				continue
 			}
+			if w.scn.FirstFaultPending && w.faultsUsed == 0 &&
+				w.chans[1].NumPendingUpdates(lntypes.Local, lntypes.Remote)+
+					w.chans[2].NumPendingUpdates(lntypes.Local, lntypes.Remote) == 0 {
+
+				continue
+			}
 			acts = append(acts, f)
 		}
 		if w.scn.Crash && w.cdb != nil && c08In(w.scn.FaultKinds, "cb") &&
@@ -1404,15 +1414,20 @@ func (w *c08World) crashMax(def string) int {
 		if len(w.wires[wi]) == 0 {
 			return 0
 		}
+		// measured maxima (evidence bob_write_txs_per_event_max): rev 9, sig 4,
+		// reestablish 4, fulfill 3 (the settle is passed upstream and signed for at
+		// once), add / fail 0
 		switch w.wires[wi][0].msg.(type) {
 		case *lnwire.RevokeAndAck:
-			return 10
+			return 12
 		case *lnwire.CommitSig:
 			return 6
 		case *lnwire.ChannelReestablish:
+			return 6
+		case *lnwire.UpdateFulfillHTLC:
 			return 5
 		default:
-			return 1
+			return 2
 		}
 	}
 	return 0 // the event does not reach Bob
